@@ -71,7 +71,7 @@ def gen_pools(rng, types):
     names = [t["name"] for t in types]
     for i in range(rng.choice([2, 2, 3, 3, 3, 4])):
         p = {"name": "p%d" % i, "weight": rng.choice(WEIGHTS), "reqs": [], "labels": {}, "taints": [], "startup": [],
-             "limits": {"cpu": 0, "mem": 0, "nodes": -1}, "types": [], "notReady": False, "deleting": False, "hashAnn": ""}
+             "limits": {"cpu": 0, "mem": 0, "nodes": -1}, "types": [], "notReady": False, "deleting": False, "hashAnn": "", "replicas": 0}
         if rng.random() < 0.35:
             p["reqs"].append({"key": "zone", "op": "In", "vals": rng.sample(ZONES, rng.choice([1, 2, 2])), "n": 0, "min": 0})
             if len(p["reqs"][-1]["vals"]) == 2 and rng.random() < 0.2:
@@ -125,6 +125,11 @@ def gen_pools(rng, types):
             p["deleting"] = True
         if rng.random() < 0.35:
             p["hashAnn"] = rng.choice(["1234567890", "42"])
+        if i > 0 and rng.random() < 0.1:
+            # a STATIC pool (the scheduler ignores it; the real static provisioning controller builds `replicas` NodeClaims from ONE object)
+            p["replicas"] = rng.choice([2, 3, 3])
+            if not p["labels"] and rng.random() < 0.7:
+                p["labels"]["team"] = rng.choice(["x", "y"])
         pools.append(p)
     return pools
 
@@ -146,7 +151,29 @@ def gen_daemonsets(rng, types):
         if rng.random() < 0.25:
             d["ports"] = [{"port": rng.choice([80, 9100]), "ip": "", "proto": "TCP"}]
         out.append(d)
+    if rng.random() < 0.3:
+        out += twin_daemonsets(rng, types, rng.choice(["arch", "arch", "gen", "it", "zone"]) if rng.random() < 0.9 else "zone")
     return out
+
+
+def twin_daemonsets(rng, types, key):
+    """two daemonsets with the SAME NAME in different namespaces that select disjoint instance types (different overhead groups) and
+    ask for different amounts; key `zone` leaves the exact C19 alphabet (the C19 guard is then not evaluated in that scenario)"""
+    name = rng.choice(["agent", "node-agent"])
+    a = {"name": name, "ns": "team-a", "cpu": rng.choice([100, 200]), "mem": 64, "sel": {}, "terms": [], "tol": [dict(sc.TOL_ALL)], "ports": []}
+    b = {"name": name, "ns": "team-b", "cpu": rng.choice([300, 400, 600]), "mem": rng.choice([64, 512]), "sel": {}, "terms": [],
+         "tol": [dict(sc.TOL_ALL)], "ports": []}
+    if key == "arch":
+        a["sel"], b["sel"] = {"arch": "amd64"}, {"arch": "arm64"}
+    elif key == "zone":
+        a["sel"], b["sel"] = {"zone": "a"}, {"zone": rng.choice(["b", "c"])}
+    elif key == "gen":
+        g = rng.choice([1, 2, 3])
+        a["terms"], b["terms"] = [[sc.expr("gen", "Lt", n=g + 1)]], [[sc.expr("gen", "Gt", n=g)]]
+    else:
+        t = rng.choice(types)["name"]
+        a["terms"], b["terms"] = [[sc.expr("it", "NotIn", [t])]], [[sc.expr("it", "In", [t])]]
+    return [a, b] if rng.random() < 0.5 else [b, a]
 
 
 def gen_nodes(rng, types, pools):
@@ -246,7 +273,9 @@ def explore(rng, name="w"):
     big = rng.random() < 0.5
     pods = [gen_pod(rng, "w%d" % i, arch, big) for i in range(rng.choice([1, 2, 3, 3, 4, 5, 6]))]
     opts = {"preference": rng.choice(["Respect", "Ignore"]), "minValues": rng.choice(["Strict", "Strict", "BestEffort"]), "reserved": "strict",
-            "workers": rng.choice([1, 2, 8]), "maxTypes": rng.choice([0, 1, 2, 2, 3]), "create": True}
+            "workers": rng.choice([1, 2, 8]), "maxTypes": rng.choice([0, 1, 2, 2, 3]), "create": True, "deadlineAfter": 0}
+    if rng.random() < 0.12:
+        opts["deadlineAfter"] = rng.randrange(1, len(pods) + 1)      # the Solve deadline expires right after that many pods were placed
     return {"name": name, "options": opts, "types": types, "pools": pools, "nodes": nodes, "ds": dss, "scs": [], "pvs": [], "pvcs": [],
             "pods": bound + pods}
 
@@ -265,13 +294,13 @@ def _type(name, cpu, mem, offs, **lab):
 
 def _pool(name, weight, **kw):
     p = {"name": name, "weight": weight, "reqs": [], "labels": {}, "taints": [], "startup": [], "limits": {"cpu": 0, "mem": 0, "nodes": -1},
-         "types": [], "notReady": False, "deleting": False, "hashAnn": ""}
+         "types": [], "notReady": False, "deleting": False, "hashAnn": "", "replicas": 0}
     p.update(kw)
     return p
 
 
 def _scn(name, types, pools, pods, ds=(), nodes=(), **opts):
-    o = {"preference": "Respect", "minValues": "Strict", "reserved": "strict", "workers": 1, "maxTypes": 0, "create": True}
+    o = {"preference": "Respect", "minValues": "Strict", "reserved": "strict", "workers": 1, "maxTypes": 0, "create": True, "deadlineAfter": 0}
     o.update(opts)
     return {"name": name, "options": o, "types": types, "pools": pools, "nodes": list(nodes), "ds": list(ds), "scs": [], "pvs": [], "pvcs": [],
             "pods": pods}
@@ -332,7 +361,43 @@ def cells():
     for s in out:
         for w in (1, 2, 8):
             res.append(sc.with_options(s, {"workers": w}, "k%d" % w))
-    return res + truncation_cells()
+    return res + truncation_cells() + round2_cells()
+
+
+def round2_cells():
+    """(1) same-named daemonsets in two namespaces that split the catalog into overhead groups by arch / gen / zone, the pod confined to
+    the group of the dearer one, both provider orders; (2) static pools (replicas 3) with / without template labels, taints, startup taints,
+    stale hash annotation, next to a dynamic pool that needs three nodes; (3) the Solve deadline expiring after k = 1..3 placements."""
+    out = []
+    pod = lambda n, cpu=500, **kw: dict(sc.plain_pod(n, cpu, 256), **kw)
+    # (1)
+    grp = {"cheap": [("A", 50), ("B", 60)], "dear": [("C", 70), ("D", 80)]}
+    lab = {"cheap": dict(arch="amd64", gen="2", zone="a"), "dear": dict(arch="arm64", gen="3", zone="b")}
+    for key in ("arch", "gen", "zone"):
+        for order in (("cheap", "dear"), ("dear", "cheap")):
+            types = [_type(n, 4000, 8192, [_off(lab[g]["zone"], "od", price)], arch=lab[g]["arch"], gen=lab[g]["gen"]) for g in order for n, price in grp[g]]
+            mk = lambda ns, cpu, g: {"name": "agent", "ns": ns, "cpu": cpu, "mem": 64, "tol": [dict(sc.TOL_ALL)], "ports": [],
+                                     "sel": ({key: lab[g][key]} if key != "gen" else {}),
+                                     "terms": ([[sc.expr("gen", "In", [lab[g]["gen"]])]] if key == "gen" else [])}
+            ds = [mk("team-a", 200, "cheap"), mk("team-b", 700, "dear")]
+            confined = pod("w0", 1000, sel={key: lab["dear"][key]}) if key != "gen" else pod("w0", 1000, terms=[[sc.expr("gen", "In", ["3"])]])
+            for dss in (ds, ds[::-1]):
+                out.append(_scn("cell/twin-daemonsets/%s-%sfirst-%s" % (key, order[0], dss[0]["ns"]), types, [_pool("p0", 0)],
+                                [confined, pod("w1", 1000), pod("w2", 3500)], ds=dss))
+    # (2)
+    small = _type("s", 2000, 4096, [_off("a", "od", 100), _off("b", "od", 100)])
+    for nm, kw in (("labels", dict(labels={"team": "x"})),
+                   ("labels-taints", dict(labels={"team": "x"}, taints=[dict(sc.TAINT)], startup=[dict(sc.STARTUP)], hashAnn="1234567890")),
+                   ("bare", dict()), ("reqs", dict(reqs=[{"key": "team", "op": "In", "vals": ["x", "y"], "n": 0, "min": 0}], labels={"env": "prod"}))):
+        out.append(_scn("cell/static-pool/%s" % nm, [small], [_pool("p0", 10, labels={"team": "y"}, hashAnn="42"), _pool("p1", 0, replicas=3, **kw)],
+                        [pod("w%d" % i, 1500) for i in range(3)]))
+    # (3)
+    mid = _type("m", 4000, 8192, [_off("a", "od", 200)])
+    ds0 = [{"name": "ds0", "ns": "kube-system", "cpu": 500, "mem": 128, "sel": {}, "terms": [], "tol": [dict(sc.TOL_ALL)], "ports": []}]
+    for k in (1, 2, 3):
+        out.append(_scn("cell/solve-deadline/own-node-k%d" % k, [mid], [_pool("p0", 0)], [pod("w%d" % i, 3000) for i in range(3)], ds=ds0, deadlineAfter=k))
+        out.append(_scn("cell/solve-deadline/shared-node-k%d" % k, [mid], [_pool("p0", 0)], [pod("w%d" % i, 800) for i in range(3)], ds=ds0, deadlineAfter=k))
+    return out
 
 
 def truncation_cells():
@@ -366,7 +431,7 @@ def truncation_cells():
 MAP_FIELDS = {"labels", "sel"}
 OPTION_GRID = [{"minValues": mv, "maxTypes": mt, "workers": w} for mv in ("Strict", "BestEffort") for mt in (0, 1, 2) for w in (1, 2, 8)]
 ALL_WEAK = ["order", "lowest", "ready", "chargeSum", "truncFirst", "rankDearest", "rankUnavailable", "truncMin", "ovhPerPod", "ovhNone",
-            "staleHash", "simKeys", "noStartup", "noRelax", "truncMinOrder"]
+            "staleHash", "simKeys", "noStartup", "noRelax", "truncMinOrder", "ovhByName", "hashSecond", "noFinalize"]
 INVS = ("Inv_C19_HighestWeightFeasible", "Inv_C19_CheapestPrefix", "Inv_C13_TypesSubsetMinValues", "Inv_C13_Requests", "Inv_C13_Template")
 # fidelity classes that were analysed on the unchanged tree and are NOT model gaps (see the C19 notes in the manifest)
 EXPLAINED_FIDELITY = {("Fid_C19_Chosen", "chosen-pool-node-limit-exhausted-for-spec")}
